@@ -1,12 +1,12 @@
 SPECIFICATION Spec
 CONSTANTS
-  NV = 2
+  NV = 3
   StabV = {}
   HasHf = FALSE
   Absent0 = {}
   Admin = FALSE
-  AlwaysW = TRUE
-  AlwaysPRs = TRUE
+  AlwaysW = FALSE
+  AlwaysPRs = FALSE
   Cmds = {}
   Rewrites = FALSE
   NP = 2
@@ -18,8 +18,8 @@ CONSTANTS
   RepStatuses = {"SUCCESSFUL", "FAILED"}
   Atomic = TRUE
   ReportFine = FALSE
-  AutoApprove = TRUE
-  Opts = {}
+  AutoApprove = FALSE
+  Opts = {"mkw", "mkprs"}
   ReportOnce = TRUE
   MaxLevel = 10
   EmitJson = FALSE
